@@ -254,6 +254,13 @@ func checkC09(c c09Case) error {
 			if derr != nil || eerr != nil || !bytes.Equal(e3, e1) {
 				return finding("not-a-fixpoint", "step %d: decode, discard again, encode changes the canonical form (dec=%v enc=%v)\n e1=%x\n e3=%x", i, derr, eerr, e1, e3)
 			}
+			// dropping the raw bytes by truncation (empty, non-nil) is the same as dropping them with nil
+			discardEmpty = true
+			e4, derr, eerr := reencode(c.Kind, cur, true)
+			discardEmpty = false
+			if derr != nil || eerr != nil || !bytes.Equal(e4, e1) {
+				return finding("canonical-form-rejected/raw-truncated", "step %d: with the retained raw bytes truncated to empty slices instead of set to nil the re-encoding differs (dec=%v enc=%v)\n nil=%x\n [:0]=%x", i, derr, eerr, e1, e4)
+			}
 			if is := rc.DeterminismIssues(mustParse(e1)); len(is) > 0 {
 				return finding("canonical-form-not-deterministic", "step %d: form after discarding raw bytes is not deterministic CBOR: %+v\n%x", i, is, e1)
 			}
